@@ -1,5 +1,6 @@
 import GeoVerif.Model.Rhumb
 import GeoVerif.Proofs.Rhumb
+import GeoVerif.Gen.RhumbArea
 /-!
 # C09 — rhumb lines: property theorems
 
@@ -127,5 +128,16 @@ theorem rhumb_inverse_shortest (lon1 lon2 lon12 : ℝ) (K : InvKernels ℝ) (hc 
   rhumb_inverse_shortest' lon1 lon2 lon12 K hc hne
 
 example : DiffContract 10 (-170) (-180) := ⟨by norm_num, ⟨0, by norm_num⟩⟩
+
+/-! ### the series-mode area table (re-extracted from `Rhumb::AreaCoeffs` on this run): shape only
+
+The values of the 21 rationals are **not** certified in Lean (that needs the expansion of the rhumb-area integrand in `n`);
+they are validated through the quadrature oracle of the harness (`rhumb-area`, `rhumb-series-exact`). -/
+
+/-- the table is triangular with `Lmax` rows — exactly what the `polyval` loop of `AreaCoeffs` consumes (`o == sizeof(coeffs)/sizeof(real)`
+    is the code's own post-condition) — no entry is zero, and the order is the one the tolerances assume -/
+theorem area_table_shape :
+    Gen.RhumbArea.coeffs.length = Gen.RhumbArea.Lmax * (Gen.RhumbArea.Lmax + 1) / 2 ∧ Gen.RhumbArea.Lmax = 6 ∧
+    Gen.RhumbArea.coeffs.all (fun q => q != 0) = true := by decide +kernel
 
 end GeoVerif.Props.C09
